@@ -563,17 +563,26 @@ Definition jstrs (l : list string) : json := JArr (map JStr l).
 Definition jint (z : Z) : json := JNum (Dec z 0).
 Definition jpoint (p : dec * dec) : json := JArr [JNum (fst p); JNum (snd p)].
 
-(** `omitempty` members *)
-Definition opt_str (k : string) (s : string) : obj := if String.eqb s "" then [] else [(k, JStr s)].
-Definition opt_strs (k : string) (l : option (list string)) : obj :=
-  match l with None | Some [] => [] | Some l => [(k, jstrs l)] end.
+(** an object is printed from its members in struct order; an `omitempty` member with an empty value ([None]) is left out *)
+Definition fields := list (string * option json).
+Definition collapse (l : fields) : obj :=
+  flat_map (fun kv => match snd kv with Some v => [(fst kv, v)] | None => [] end) l.
+
+Definition ostr (s : string) : option json := if String.eqb s "" then None else Some (JStr s).
+Definition ostrs (l : option (list string)) : option json :=
+  match l with None | Some [] => None | Some l => Some (jstrs l) end.
+
+Definition crs_fields (c : crs) : fields :=
+  match c with
+  | CrsURI d u _ => [("description", ostr d); ("uri", Some (JStr u))]
+  | CrsWKT d w => [("description", ostr d); ("wkt", Some (JObj w))]
+  | CrsRef d r => [("description", ostr d); ("referenceSystem", Some (JObj r))]
+  end.
 
 Definition encodeCRS (c : crs) : json :=
   match c with
   | CrsURI d u true => JStr u
-  | CrsURI d u false => JObj (opt_str "description" d ++ [("uri", JStr u)])
-  | CrsWKT d w => JObj (opt_str "description" d ++ [("wkt", JObj w)])
-  | CrsRef d r => JObj (opt_str "description" d ++ [("referenceSystem", JObj r)])
+  | _ => JObj (collapse (crs_fields c))
   end.
 
 Definition corner_str (c : corner) : string :=
@@ -582,22 +591,33 @@ Definition corner_str (c : corner) : string :=
 Definition encodeVmw (v : vmw) : json :=
   JObj [("coalesce", jint (v_coalesce v)); ("minTileRow", jint (v_minTileRow v)); ("maxTileRow", jint (v_maxTileRow v))].
 
-Definition encodeTM (m : tileMatrix) : json :=
-  JObj ([("id", JStr (tm_id m))]
-        ++ opt_str "title" (tm_title m)
-        ++ opt_str "description" (tm_description m)
-        ++ opt_strs "keywords" (tm_keywords m)
-        ++ [("scaleDenominator", JNum (tm_scaleDenominator m)); ("cellSize", JNum (tm_cellSize m))]
-        ++ opt_str "cornerOfOrigin" (corner_str (tm_corner m))
-        ++ [("pointOfOrigin", match tm_origin m with Some p => jpoint p | None => JNull end);
-            ("tileWidth", jint (tm_tileWidth m)); ("tileHeight", jint (tm_tileHeight m));
-            ("matrixWidth", jint (tm_matrixWidth m)); ("matrixHeight", jint (tm_matrixHeight m))]
-        ++ match tm_vmw m with None | Some [] => [] | Some l => [("variableMatrixWidths", JArr (map encodeVmw l))] end).
+Definition ovmws (l : option (list vmw)) : option json :=
+  match l with None | Some [] => None | Some l => Some (JArr (map encodeVmw l)) end.
 
-Definition encodeBBox (b : bbox) : json :=
-  JObj ([("lowerLeft", jpoint (bb_lowerLeft b)); ("upperRight", jpoint (bb_upperRight b))]
-        ++ opt_strs "orderedAxes" (bb_orderedAxes b)
-        ++ [("crs", encodeCRS (bb_crs b))]).
+Definition tm_fields (m : tileMatrix) : fields :=
+  [("id", Some (JStr (tm_id m)));
+   ("title", ostr (tm_title m));
+   ("description", ostr (tm_description m));
+   ("keywords", ostrs (tm_keywords m));
+   ("scaleDenominator", Some (JNum (tm_scaleDenominator m)));
+   ("cellSize", Some (JNum (tm_cellSize m)));
+   ("cornerOfOrigin", ostr (corner_str (tm_corner m)));
+   ("pointOfOrigin", Some (match tm_origin m with Some p => jpoint p | None => JNull end));
+   ("tileWidth", Some (jint (tm_tileWidth m)));
+   ("tileHeight", Some (jint (tm_tileHeight m)));
+   ("matrixWidth", Some (jint (tm_matrixWidth m)));
+   ("matrixHeight", Some (jint (tm_matrixHeight m)));
+   ("variableMatrixWidths", ovmws (tm_vmw m))].
+
+Definition encodeTM (m : tileMatrix) : json := JObj (collapse (tm_fields m)).
+
+Definition bbox_fields (b : bbox) : fields :=
+  [("lowerLeft", Some (jpoint (bb_lowerLeft b)));
+   ("upperRight", Some (jpoint (bb_upperRight b)));
+   ("orderedAxes", ostrs (bb_orderedAxes b));
+   ("crs", Some (encodeCRS (bb_crs b)))].
+
+Definition encodeBBox (b : bbox) : json := JObj (collapse (bbox_fields b)).
 
 (** sort.Slice of the matrices by strconv.ParseInt(ID) (errors read as 0); stable insertion sort here: for a
     decoded value the ids are the (distinct) map keys, so there are no ties *)
@@ -609,17 +629,19 @@ Fixpoint insert_by_id (m : tileMatrix) (l : list tileMatrix) : list tileMatrix :
   end.
 Definition sort_by_id (l : list tileMatrix) : list tileMatrix := fold_right insert_by_id [] l.
 
-Definition encodeTMS (t : tms) : json :=
-  JObj (opt_str "id" (t_id t)
-        ++ opt_str "title" (t_title t)
-        ++ opt_str "description" (t_description t)
-        ++ opt_strs "keywords" (t_keywords t)
-        ++ opt_str "uri" (t_uri t)
-        ++ [("orderedAxes", match t_orderedAxes t with None => JNull | Some l => jstrs l end)]
-        ++ opt_str "wellKnownScaleSet" (t_wkss t)
-        ++ match t_bbox t with None => [] | Some b => [("boundingBox", encodeBBox b)] end
-        ++ [("crs", encodeCRS (t_crs t));
-            ("tileMatrices", JArr (map encodeTM (sort_by_id (map snd (t_matrices t)))))]).
+Definition tms_fields (t : tms) : fields :=
+  [("id", ostr (t_id t));
+   ("title", ostr (t_title t));
+   ("description", ostr (t_description t));
+   ("keywords", ostrs (t_keywords t));
+   ("uri", ostr (t_uri t));
+   ("orderedAxes", Some (match t_orderedAxes t with None => JNull | Some l => jstrs l end));
+   ("wellKnownScaleSet", ostr (t_wkss t));
+   ("boundingBox", match t_bbox t with None => None | Some b => Some (encodeBBox b) end);
+   ("crs", Some (encodeCRS (t_crs t)));
+   ("tileMatrices", Some (JArr (map encodeTM (sort_by_id (map snd (t_matrices t))))))].
+
+Definition encodeTMS (t : tms) : json := JObj (collapse (tms_fields t)).
 
 (** ** pointindex.IsQuadTree *)
 Inductive verdict :=
